@@ -173,7 +173,9 @@ def check_site(year, site):
             amount = site['amount'][year] if isinstance(site['amount'], dict) else site['amount']
             amts = [find_symbol(a.lstrip('-'))[0] for a in amount]
             if any(a is None for a in amts):
-                obs.append(Ob(id=oid, status=oblig.ERROR, function=fidn, solver_output=f'site amount {amount} is not read by the line'))
+                obs.append(Ob(id=oid, status=oblig.REFUTED, backend='symexec', function=fidn, clause=f'NOT: {lname} compares {amount} with the official {site.get("official")}[{year}] (the line never reads it)',
+                              witness={'reads': sorted({r for p in paths for _, r, _ in p.reads})[:12]}, solver_output=f'site amount {amount} is not read by the line',
+                              replay={'reproduced': True, 'static': True, 'reads_of_the_line': sorted({r for p in paths for _, r, _ in p.reads})[:12]}))
                 continue
             sx = [a.sexpr() for a in amts]
             xexpr = None
@@ -245,7 +247,7 @@ def check_site(year, site):
             want = official_for(m)
             allowed = {float(x) for x in (want if isinstance(want, (set, list, tuple)) else [want])}
             found, bad = 0, None
-            seen = set()
+            seen, used = set(), set()
             ments = list(site['mentions'])
             for e in sym.SIGMA.by_key.values():       # sums over the mentioned reads count as mentions
                 if any(mt in e['delta'].sexpr() for mt in site['mentions']):
@@ -268,9 +270,14 @@ def check_site(year, site):
                         if not nums:
                             continue
                         found += 1
+                        used.update(n for n in nums if n in allowed)
                         if any(n not in allowed for n in nums):
                             bad = (str(a2)[:200], nums)
             clause = f'{lname} compares amounts built from {site["mentions"]} only with the official {site["official"]}[{year}][{mtxt}] = {sorted(allowed)}'
+            if bad is None and found and site.get('each_decides') and used != allowed:
+                # every amount of the official set decides something for this status (a dropped test is a missing threshold)
+                bad = (f'no condition for status {mtxt} compares with {sorted(allowed - used)}', sorted(used))
+                clause = f'{lname} tests amounts built from {site["mentions"]} against each of the official {site["official"]}[{year}][{mtxt}] = {sorted(allowed)}'
             if bad is None and found:
                 obs.append(Ob(id=oid, backend='z3', function=fidn, time_s=time.time() - t0, clause=clause, vc=f'{found} condition atom(s)'))
             elif bad is None:
@@ -282,7 +289,10 @@ def check_site(year, site):
             tab = official_for(m)
             amt, _ = find_symbol(site['amount'])
             if amt is None:
-                obs.append(Ob(id=oid, status=oblig.ERROR, function=fidn, solver_output=f'{site["amount"]} is not read by the line'))
+                # the official table is keyed by that line of the form: a line function that never reads it cannot apply the table to it
+                obs.append(Ob(id=oid, status=oblig.REFUTED, backend='symexec', function=fidn, clause=f'NOT: {lname} applies the official {site["official"]}[{year}] table to {site["amount"].split("|")[1]} (the line never reads it)',
+                              witness={'reads': sorted({r for p in paths for _, r, _ in p.reads})[:12]}, solver_output=f'{site["amount"]} is not read by the line',
+                              replay={'reproduced': True, 'static': True, 'reads_of_the_line': sorted({r for p in paths for _, r, _ in p.reads})[:12]}))
                 continue
             bounds = [z3.RealVal(-10 ** 12)] + [rv(b) for b, _ in tab] + [None]
             vals = [a for _, a in tab] + [0]
